@@ -7,7 +7,7 @@ from . import pcommon as pc
 def run(tier):
     ck = C.Check("C05", tier)
     failed = ck.proofs()
-    n_g, n_r = (60, 8) if tier == "quick" else (800, 25)
+    n_g, n_r = (60, 8) if tier == "quick" else (450, 20)
     res = P.run_family(ck, n_g, n_r, p_err=0.0, want_hist=False, conflict_bias=0.6)
     st = {"conflicted_grammars": 0, "competing_entries": 0, "entries": 0, "runs_on_conflicted": 0}
     nontrivial = set()
